@@ -50,6 +50,7 @@ const (
 	XBulkInsert
 	XBulkDelete
 	XPass // no-op step (keeps a task alive)
+	XTick // concurrent phases (C06 only): the clock moves while calls are in flight
 )
 
 var opNames = map[OpKind]string{
@@ -62,7 +63,7 @@ var opNames = map[OpKind]string{
 	CCompute: "CCompute", CGetAndDelete: "GetAndDelete", CDelete: "CDelete", CDeleteExpired: "DeleteExpired",
 	CRange: "CRange", CItems: "Items", CClear: "CClear", CCount: "Count",
 	CSetDefaultExpiration: "SetDefaultExpiration", CDefaultExpiration: "DefaultExpiration", CSetCallback: "SetEvictedCallback",
-	XAdvance: "Advance", XBulkInsert: "BulkInsert", XBulkDelete: "BulkDelete", XPass: "Pass",
+	XAdvance: "Advance", XBulkInsert: "BulkInsert", XBulkDelete: "BulkDelete", XPass: "Pass", XTick: "Tick",
 }
 
 func (k OpKind) String() string { return opNames[k] }
@@ -209,6 +210,7 @@ type World struct {
 	reports []Report
 	cbSeq   int
 	curCB   int
+	slowDone  bool  // the slow callback (kind 3) has stalled once
 	cbAtCtor  int   // id of the callback installed at construction (0: none)
 	defAtCtor int64 // default TTL in force after construction
 }
@@ -460,6 +462,11 @@ func (w *World) callback(kind int) (func(k int, v int64), int) {
 			}
 		}
 		w.reports = append(w.reports, Report{CB: id, K: k, V: v, Task: tid, OpIx: opIx, Seq: w.seq()})
+		if kind == 3 && !w.slowDone {
+			// a slow callback: the caller is frozen here until nobody else can move
+			w.slowDone = true
+			simrt.ParkResumable()
+		}
 		if kind == 2 {
 			w.reenterAll(false, k, v)
 		}
@@ -478,6 +485,15 @@ func (w *World) ExecCache(op Op, nested bool) *Rec {
 			mt = 3
 		}
 		w.sim.Advance(op.D, true, mt)
+		r.Ret = w.seq()
+		return r
+	}
+	if op.K == XTick {
+		yieldUser()
+		r := &Rec{Task: w.curTaskID(), Ix: len(w.recs), Op: op, Call: w.seq(), Now: w.sim.Now()}
+		w.recs = append(w.recs, r)
+		w.sim.Advance(op.D, false, 0) // no settling: everybody keeps running
+		yieldUser()
 		r.Ret = w.seq()
 		return r
 	}
